@@ -88,7 +88,8 @@ MulDigit(x, d, c) ==
     ELSE LET p == Head(x) * d + c IN <<p % Base>> \o MulDigit(Tail(x), d, p \div Base)
 RECURSIVE NatMul(_, _)
 NatMul(x, y) == IF y = <<>> THEN <<>>
-                ELSE NatAdd(Strip(MulDigit(x, Head(y), 0)), IF NatMul(x, Tail(y)) = <<>> THEN <<>> ELSE <<0>> \o NatMul(x, Tail(y)))
+                ELSE LET rest == NatMul(x, Tail(y))        \* (bound once: the recursion must stay linear in the number of limbs)
+                     IN NatAdd(Strip(MulDigit(x, Head(y), 0)), IF rest = <<>> THEN <<>> ELSE <<0>> \o rest)
 
 (* ---- signed integers <<"i", sign, limbs>> ----------------------------- *)
 MkInt(sign, limbs) == IF Strip(limbs) = <<>> THEN <<"i", 0, <<>>>> ELSE <<"i", sign, Strip(limbs)>>
